@@ -17,6 +17,7 @@ import (
 	"runtime"
 	"strings"
 	"time"
+	"verif/internal/dnsref"
 
 	"github.com/c2FmZQ/ech"
 	"github.com/c2FmZQ/ech/dns"
@@ -720,6 +721,7 @@ func Run(r *ev.Run) {
 		r.Cap(fmt.Sprintf("workers executed %d of %d cases", done, total))
 	}
 	retention(r)
+	retentionLookups(r)
 }
 
 // retention: memory is bounded per MESSAGE - nothing of a decoded message stays reachable from the package once the caller has
@@ -763,4 +765,76 @@ func retention(r *ev.Run) {
 	}
 	r.Eval("retention", oc)
 	r.Set("retention_messages", n)
+}
+
+// retentionLookups (round 13): memory is bounded per LOOKUP too - what a finished DoH lookup started is gone when it has
+// returned, also when the caller's context is never cancelled (context.Background(), a server-wide context): 3000 lookups
+// through the in-memory responder (no sockets, no goroutines of its own) with a context that never ends; afterwards the process
+// runs as many goroutines as before (a grace period lets goroutines that are merely finishing finish; one that waits for the
+// context never does), no response body is left open, and the heap in use has not grown by more than 4 MiB.
+func retentionLookups(r *ev.Run) {
+	srv := &dohmem.Server{}
+	prev := dns.VerifRoundTripper
+	dns.VerifRoundTripper = srv
+	defer func() { dns.VerifRoundTripper = prev }()
+	srv.Zone = func(name string, t uint16) dohmem.Answer {
+		if t == 1 {
+			return dohmem.Answer{Records: []dnsref.RR{{Name: name, Type: 1, Class: 1, TTL: 60, Fields: []dnsref.Field{{Raw: []byte{10, 0, 0, 1}}}}}}
+		}
+		return dohmem.Answer{}
+	}
+	inUse := func() uint64 {
+		runtime.GC()
+		runtime.GC()
+		var ms runtime.MemStats
+		runtime.ReadMemStats(&ms)
+		return ms.HeapAlloc
+	}
+	lookup := func(i int) error {
+		q := dns.Message{ID: uint16(i), RD: 1, Question: []dns.Question{{Name: fmt.Sprintf("n%d.lookups.example", i), Type: 1, Class: 1}}}
+		_, err := dns.DoH(context.Background(), &q, "https://doh.test/dns-query")
+		return err
+	}
+	for i := 0; i < 50; i++ { // warm-up
+		lookup(i)
+	}
+	srv.Reset()
+	settle := func(limit int) int {
+		g := runtime.NumGoroutine()
+		for i := 0; i < 500 && g > limit; i++ { // grace period, not an oracle: at most 5 s, left as soon as the count is back
+			time.Sleep(10 * time.Millisecond)
+			g = runtime.NumGoroutine()
+		}
+		return g
+	}
+	g0 := settle(0)
+	g0 = runtime.NumGoroutine()
+	open0, before := dohmem.OpenBodies.Load(), inUse()
+	const n = 3000
+	failed := 0
+	for i := 0; i < n; i++ {
+		if lookup(50+i) != nil {
+			failed++
+		}
+	}
+	srv.Reset()
+	if failed > 0 {
+		ev.ToolError("c12 retentionLookups: %d of %d plain lookups failed", failed, n)
+	}
+	g1 := settle(g0 + 8)
+	open1, after := dohmem.OpenBodies.Load(), inUse()
+	oc := "lookups: nothing left behind"
+	switch {
+	case g1 > g0+8:
+		oc = "lookups: goroutines left behind"
+		r.Violation("goroutines-retained-across-lookups", fmt.Sprintf("after %d finished DoH lookups under context.Background() the process runs %d goroutines, %d before: every lookup leaves something waiting (and what it references reachable) for as long as the context lives", n, g1, g0), nil)
+	case open1 > open0:
+		oc = "lookups: response bodies left open"
+		r.Violation("bodies-open-across-lookups", fmt.Sprintf("after %d finished DoH lookups %d response bodies are still open (%d before)", n, open1, open0), nil)
+	case after > before && after-before > 4<<20:
+		oc = "lookups: heap grows with the number of lookups"
+		r.Violation("memory-retained-across-lookups", fmt.Sprintf("after %d finished DoH lookups the heap in use grew from %d to %d octets (%d per lookup)", n, before, after, (after-before)/n), nil)
+	}
+	r.Eval("retention-lookups", oc)
+	r.Set("retention_lookups", n)
 }
